@@ -36,6 +36,20 @@ def generate(streams, tier):
                 "shared": False, "ops": ops}
     world = W.gen_bn(streams, max_n=5, min_n=1, max_card=3, max_parents=3, max_joint=512, label_mode=r.choice(["str", "str", "short", "int"]),
                      state_modes=[("default", 2), ("str", 3), ("int_sorted", 1), ("int", 2), ("mixed", 1)])
+    rbig = streams.s("many_configs")
+    if rbig.random() < 0.07:
+        # a family with several hundred parent configurations (two parents of 15..20 states each, e.g. hour x weekday-and-shift):
+        # whatever codes parent configurations compactly must hold more than a byte; many deterministic columns, so a row sampled from
+        # the wrong column is an impossible row
+        ca, cb, cc = rbig.randint(16, 20), rbig.randint(15, 19), rbig.choice([2, 3])
+        labels, lm = W.gen_labels(streams.s("labels_many"), 3, "str")
+        tabs = [W.gen_table(rbig, ca, []), W.gen_table(rbig, cb, []), W.gen_table(rbig, cc, [ca, cb], zero_rate=0.2, onehot_rate=0.6)]
+        sm = rbig.choice(["default", "str"])
+        world = {"kind": "bn", "n": 3, "card": [ca, cb, cc], "parents": [[], [], shuffled(rbig, [0, 1])], "tables": tabs, "labels": labels,
+                 "states": [W.gen_states(rbig, c_, sm) for c_ in (ca, cb, cc)], "flags": dict(world.get("flags", {}), motif="many_parent_configurations")}
+        if world["parents"][2] == [1, 0]:
+            t = np.asarray(tabs[2]).reshape(cc, ca, cb).transpose(0, 2, 1).reshape(cc, -1)
+            world["tables"][2] = t.tolist()
     n = world["n"]
     if n >= 2 and r.random() < 0.4:
         world["latents"] = sorted(r.sample(range(n), r.randint(1, max(1, n // 2))))
